@@ -137,7 +137,7 @@ class World(object):
 
     def new_spawn(self):
         sp = ScriptSpawn(None, timeout=5, searchwindowsize=self.task['inst_sw'],
-                         encoding=self.enc)
+                         encoding=self.enc, maxread=self.task.get('maxread', 2000))
         return sp
 
     def pats(self, names, compiled=False):
